@@ -33,6 +33,8 @@ type World struct {
 	Detached bool
 	// AlgFromKey: the consumer derives the algorithm from the designated key and never reads the header's alg.
 	AlgFromKey bool
+	// Near: the near-miss kind the adapter used to derive the attacker's identity from the victim's ("" = unrelated).
+	Near string
 }
 
 // nat is the algorithm the valid token of this world uses with key k.
@@ -73,11 +75,12 @@ type EncOp struct {
 
 // Variant is one hostile (or the valid) token as plain data.
 type Variant struct {
-	T     string    `json:"t"`             // template the generator used (label only; Build does not look at it)
-	VKey  string    `json:"vkey"`          // victim key type (fresh uses the same type)
-	AKey  string    `json:"akey"`          // attacker key type
-	Ref   string    `json:"ref,omitempty"` // kid | jwk, for kid-xor-jwk worlds
-	Ser   string    `json:"ser"`           // compact | flat | general
+	T     string    `json:"t"`              // template the generator used (label only; Build does not look at it)
+	VKey  string    `json:"vkey"`           // victim key type (fresh uses the same type)
+	AKey  string    `json:"akey"`           // attacker key type
+	Ref   string    `json:"ref,omitempty"`  // kid | jwk, for kid-xor-jwk worlds
+	Near  string    `json:"near,omitempty"` // near-miss identity of the attacker (see near.go); adapters that bind identities use it
+	Ser   string    `json:"ser"`            // compact | flat | general
 	Sigs  []SigSpec `json:"sigs"`
 	Shape string    `json:"shape,omitempty"` // JSON shape games: flat+sigs | flat-nosig | sigs-null
 	Mut   *Mut      `json:"mut,omitempty"`
@@ -113,6 +116,7 @@ type Facts struct {
 	IsBase    bool       `json:"is_base"`             // the untouched valid token
 	Parses    bool       `json:"parses"`              // still looks like JOSE (non-trivial rule)
 	ProtKids  []string   `json:"prot_kids,omitempty"` // literal protected kid values, per signature ("" if none)
+	Near      string     `json:"near,omitempty"`      // near-miss kind of the attacker's identity in this world
 }
 
 // Built is the result of Build.
@@ -194,7 +198,7 @@ func Build(w World, v Variant) Built {
 	if ser == "flat" && len(v.Sigs) > 1 && v.Shape != "flat+sigs" {
 		ser = "general"
 	}
-	F := Facts{Ser: ser, Ref: ref}
+	F := Facts{Ser: ser, Ref: ref, Near: w.Near}
 
 	var sigs []builtSig
 	for _, s := range v.Sigs {
@@ -786,6 +790,9 @@ func Truth(w World, f Facts) Verdict {
 		return Verdict{MustReject: true, Reason: "alg-key-mismatch"}
 	}
 	if w.IdentityBound && s.ValidFor != Victim {
+		if s.ValidFor == Attacker && f.Near != "" {
+			return Verdict{MustReject: true, Reason: "other-party-near-" + f.Near}
+		}
 		return Verdict{MustReject: true, Reason: "other-party"}
 	}
 	return Verdict{MustAccept: f.IsBase, Reason: "ok"}
@@ -881,6 +888,14 @@ func Judge(consumer string, w World, v Variant, b Built, o Observation) (fs []Fi
 	classes = []string{"t:" + v.T, "truth:" + truth + ":" + outcome, "reason:" + vd.Reason, "ser:" + b.F.Ser, "vkey:" + v.VKey, "ref:" + b.F.Ref}
 	if !vd.MustReject && !vd.MustAccept {
 		classes = append(classes, "may-accept:"+v.T+":"+outcome)
+	}
+	if b.F.Near != "" {
+		for _, s := range b.F.Sigs {
+			if s.ValidFor == Attacker || s.SignedBy == Attacker {
+				classes = append(classes, "near:"+b.F.Near+":attacker-signed:"+outcome)
+				break
+			}
+		}
 	}
 	if len(b.F.Reencoded) > 0 {
 		classes = append(classes, "reencoded")
